@@ -118,6 +118,9 @@ def p_rules(p: Project, rep: Report):
                         if isinstance(t_, ast.Subscript) and enx.t(t_.value) == cont and enx.t(t_.slice).replace(" ", "") in ("-1", f"len({cont})-1"):
                             pops.append(n)
             ok = bool(pops) and all(ecfg.dominated_by(sn.id, [x.id for x in pops]) for sn in esupers)
+            # an end tag is either refused or closes an element: no path leaves end() normally without the delegated end()
+            ok_r = bool(esupers) and ecfg.must_pass_through([ecfg.exit.id], [sn.id for sn in esupers])
+            rep.check("P-R1", "TreeBuilder.end:no-silent-return", ok_r, "a path returns from end() without raising and without closing an element: that end tag (a stray one ahead of the root, say) is silently disregarded, so improperly nested markup still yields a tree" if not ok_r else "", ploc(p, en))
             rep.check("P-R1", "TreeBuilder.end:pops-innermost", ok, "the innermost open tag is not popped exactly when an element is closed" if not ok else "", ploc(p, en))
         for s in supers:
             c = [x for x in s.calls() if is_super_call(x, "end") or text(x.func) == "ET.TreeBuilder.end"][0]
@@ -914,3 +917,111 @@ def p_r10_no_invented_end(p: Project, rep: Report):
         return
     rep.check("P-R10", "_feedmatch:end-only-for-end-tag-or-data", bad is None, f"a path of _feedmatch ends an element without having tested the match for an end tag, data or a close tag (taken when {bad})" if bad is not None else "", ploc(p, fm0))
     rep.floor("P-R10", n, 2, "end() sites")
+
+
+_ELEMENT_MAKERS = ("close", "find", "getroot", "Element", "SubElement", "makeelement")
+
+
+def _truth_tested(fn):
+    """expressions used for their truth value: tests of if / while / ifexp / assert, operands of not / and / or, bool(x)"""
+    for x in ast.walk(fn):
+        if isinstance(x, (ast.If, ast.While, ast.IfExp, ast.Assert)):
+            yield x.test
+        elif isinstance(x, ast.BoolOp):
+            yield from x.values
+        elif isinstance(x, ast.UnaryOp) and isinstance(x.op, ast.Not):
+            yield x.operand
+        elif isinstance(x, ast.Call) and text(x.func) == "bool" and len(x.args) == 1:
+            yield x.args[0]
+
+
+def p_r11_no_element_truthiness(p: Project, rep: Report, modules=(PARSER,)):
+    """an Element is false when it has no children"""
+    rep.rule("P-R11", "no ElementTree element is judged by its truth value: bool(Element) is len(Element) - False for every element without children, whatever its tag and text - so `if not root:` / `elem or default` takes a well-formed one-node tree (<OFX></OFX>, a lone data element) or an empty aggregate for `nothing there`; presence is tested with `is None` / `is not None`")
+    n_src = n_fn = 0
+    for modname in modules:
+        m = p.module(modname)
+        for qn, cls, fn in m.functions():
+            n_fn += 1
+            elems = {}
+            for st in ast.walk(fn):
+                tg = st.targets[0] if isinstance(st, ast.Assign) and len(st.targets) == 1 else (st.target if isinstance(st, (ast.AnnAssign, ast.NamedExpr)) else None)
+                v = getattr(st, "value", None)
+                if tg is None or not isinstance(v, ast.Call):
+                    continue
+                last = (dotted(v.func) or text(v.func)).split(".")[-1]
+                if last in _ELEMENT_MAKERS and isinstance(tg, (ast.Name, ast.Attribute)):
+                    elems[text(tg)] = st
+            a = fn.args
+            for arg in a.posonlyargs + a.args + a.kwonlyargs:
+                if arg.annotation is not None and text(arg.annotation).split(".")[-1] == "Element":
+                    elems[arg.arg] = arg
+            n_src += len(elems)
+            if not elems:
+                continue
+            for t in _truth_tested(fn):
+                tt = text(t)
+                if tt in elems or (isinstance(t, ast.Call) and (dotted(t.func) or text(t.func)).split(".")[-1] in _ELEMENT_MAKERS and not text(t.func).startswith("re.") and text(t.func).split(".")[-1] != "find"):
+                    rep.check("P-R11", f"{qn}:truth-of:{tt[:30]}", False, f"{qn} takes the truth value of `{tt}`, an ElementTree element: it is False for every element without child elements (<OFX></OFX>, <A1>0), so a well-formed childless tree / aggregate is handled as absent", ploc(p, t) if modname == PARSER else f"{m.relpath}:{t.lineno}")
+    rep.unit("element_bindings_tracked", n_src)
+    rep.check("P-R11", "elements:never-truth-tested", True, "", f"{n_fn} functions of {', '.join(modules)}; {n_src} element-valued locals / parameters tracked")
+    if n_src == 0:
+        rep.note("P-R11 undecided: no element-valued binding recognised")
+
+
+def p_r12_feed_refuses_only_what_it_tokenized(p: Project, rep: Report):
+    """what finditer steps over is not judged"""
+    rep.rule("P-R12", "feed() refuses a document only for what the pattern matched (tail text, the groups handed to the dispatcher): every `raise` of its own is conditioned on values derived from the match's groups alone.  A refusal conditioned on the text BETWEEN matches (a second pattern searched over the gaps, positions compared) rejects documents the tokenizer passes over today - elements whose tag names lie outside its alphabet (<X-BANKREF>, <intu.bid>) are skipped with their data and the rest converts as if they were not there")
+    ci = builder(p)
+    fd0 = ci.own_func("feed")
+    if fd0 is None:
+        raise AnalysisError("TreeBuilder.feed not found")
+    fd = fd0
+    ex = Expander(fd)
+    loops = [x for x in ast.walk(fd) if isinstance(x, ast.For) and isinstance(x.iter, ast.Call) and isinstance(x.iter.func, ast.Attribute) and x.iter.func.attr == "finditer"]
+    if not loops:
+        rep.note("P-R12 undecided: feed() has no finditer loop")
+        return
+    lp = loops[0]
+    mvar = text(lp.target)
+    datap = params_of(fd)[1] if len(params_of(fd)) > 1 else None
+    n = 0
+
+    def conds_of(node, body, acc):
+        for st in body:
+            if st is node or any(z is node for z in ast.walk(st)):
+                if isinstance(st, ast.If):
+                    arm = st.body if any(z is node for b in st.body for z in ast.walk(b)) else st.orelse
+                    return conds_of(node, arm, acc + [st.test])
+                if isinstance(st, ast.Try):
+                    for part in (st.body, st.orelse, st.finalbody):
+                        if any(z is node for b in part for z in ast.walk(b)):
+                            return conds_of(node, part, acc)
+                    return None  # inside an except handler: re-raise of the dispatcher's refusal
+                if isinstance(st, (ast.For, ast.While, ast.With)):
+                    return conds_of(node, st.body, acc)
+                return acc
+        return acc
+
+    for r in ast.walk(lp):
+        if not isinstance(r, ast.Raise):
+            continue
+        cs = conds_of(r, lp.body, [])
+        if cs is None:
+            continue
+        n += 1
+        for c in cs:
+            xc = ex.x(c)
+            bad = []
+            for nm in ast.walk(xc):
+                if isinstance(nm, ast.Name) and nm.id not in (mvar, "self", "len", "bool", "str", "isinstance", "any", "all") and nm.id != "None":
+                    bad.append(nm.id)
+                if isinstance(nm, ast.Call) and isinstance(nm.func, ast.Attribute) and nm.func.attr in ("search", "match", "fullmatch", "finditer", "findall", "find", "index", "count") and text(nm.func.value) != mvar:
+                    bad.append(text(nm.func))
+                if isinstance(nm, ast.Call) and isinstance(nm.func, ast.Attribute) and text(nm.func.value) == mvar and nm.func.attr in ("start", "end", "span", "pos", "endpos"):
+                    bad.append(text(nm.func))
+            ok = not bad
+            rep.check("P-R12", f"feed:raise:{text(norm(c))[:40]}", ok, f"feed() refuses the document under `{text(c)[:60]}`, which depends on {sorted(set(bad))} - not on the groups of the current match: text the tokenizer steps over (tags outside its alphabet, with their data) now makes the whole document fail instead of being passed over" if not ok else "", ploc(p, r))
+    rep.unit("feed_refusals", n)
+    if n == 0:
+        rep.note("P-R12: feed() raises nothing of its own")
